@@ -41,6 +41,11 @@ pub struct TlCall {
     /// resolved by then
     #[serde(default)]
     pub abandon_after: Option<u64>,
+    /// after its first poll the caller's task is busy elsewhere and does not poll the response
+    /// future again until this many ms after the call (timers and other tasks go on meanwhile;
+    /// the inner call's work is done by a task of its own, so its result is there on time)
+    #[serde(default)]
+    pub frozen_for: Option<u64>,
 }
 
 #[derive(Clone, Debug, Serialize, Deserialize)]
@@ -93,15 +98,18 @@ fn case_strategy(_tier: Tier) -> BoxedStrategy<TlCase> {
         prop::bool::weighted(0.25),
         prop_oneof![3 => Just(0u64), 1 => 1u64..=40, 1 => (1u64..=30).prop_map(|k| k * 10)],
         prop_oneof![5 => Just(None), 1 => (0u64..=60).prop_map(Some), 1 => (1u64..=10).prop_map(|k| Some(k * 10 - 1))],
+        prop_oneof![5 => Just(None), 1 => (1u64..=400).prop_map(Some), 1 => (1u64..=12).prop_map(|k| Some(k * 10 + 1))],
     )
-        .prop_map(|(at, timeout, lat, ok, busy, ready_before, abandon_after)| TlCall {
+        .prop_map(|(at, timeout, lat, ok, busy, ready_before, abandon_after, frozen_for)| TlCall {
             at,
             timeout,
             lat,
             ok,
             busy,
             ready_before,
-            abandon_after,
+            // one special situation per call
+            abandon_after: if frozen_for.is_some() { None } else { abandon_after },
+            frozen_for,
         });
     (
         timeout_strategy(),
@@ -200,6 +208,7 @@ async fn interp(case: &TlCase) -> Verdict {
             vec![Step {
                 lat: match lats[i] {
                     None => Lat::Never,
+                    Some(ms) if case.calls[i].frozen_for.is_some() => Lat::Spawned(ms),
                     Some(ms) if case.calls[i].busy && ms > 0 => Lat::Busy(ms),
                     Some(ms) => Lat::Ms(ms),
                 },
@@ -299,7 +308,7 @@ async fn interp(case: &TlCase) -> Verdict {
     let horizon = (0..n)
         .map(|i| {
             let tout = if case.huge_timeout { case.timeout } else { touts[i] };
-            case.calls[i].at + tout.max(lats[i].unwrap_or(0))
+            case.calls[i].at + tout.max(lats[i].unwrap_or(0)).max(case.calls[i].frozen_for.unwrap_or(0))
         })
         .max()
         .unwrap_or(0)
@@ -343,6 +352,11 @@ async fn interp(case: &TlCase) -> Verdict {
             call = None;
         }
         sim.settle().await;
+        for i in 0..n {
+            if let (Some(d), Some(tk), true) = (case.calls[i].frozen_for, task[i], case.calls[i].at == t) {
+                sim.freeze(tk, t + d);
+            }
+        }
     }
 
     let snap = log.snapshot();
@@ -350,6 +364,7 @@ async fn interp(case: &TlCase) -> Verdict {
     let mut noncancel_timeout = false;
     let mut tie = false;
     let mut any_abandoned = false;
+    let mut any_frozen = false;
     for i in 0..n {
         let c = &case.calls[i];
         let tk = task[i].unwrap();
@@ -371,6 +386,61 @@ async fn interp(case: &TlCase) -> Verdict {
             if (l as i64 - tmo as i64).abs() <= 1 {
                 near = true;
             }
+        }
+        if let Some(d) = c.frozen_for {
+            any_frozen = true;
+            // the caller polled once at `at` and then not before f1. Non-cancel mode races two
+            // ready branches at f1 (either may win); cancel mode is judged:
+            //  * result there before the deadline            => that result, at max(available, f1)
+            //  * result not there by the deadline, f1 <= deadline => timeout error at the deadline
+            //  * otherwise (both overdue when polled again)   => either, at f1
+            let f1 = c.at + d;
+            let deadline = c.at + tmo;
+            if case.cancel && !case.huge_timeout {
+                let Some((rt, out)) = resolve.clone() else {
+                    violations.push(format!(
+                        "call {i} (arrival {}, timeout {tmo} ms, latency {lat:?}, caller busy until t={f1}) had not resolved by t={horizon}",
+                        c.at
+                    ));
+                    continue;
+                };
+                let timed_out = matches!(&out, Outcome::Layer(nm) if nm == "Timeout");
+                // the instant at which the caller can notice something that became true at x: within
+                // its arrival instant it is still polling, afterwards not before f1
+                let eff = |x: u64| if x == c.at { c.at } else { x.max(f1) };
+                match lat {
+                    Some(l) if l < tmo => {
+                        let want = eff(c.at + l);
+                        if timed_out {
+                            violations.push(format!(
+                                "call {i} (arrival {}, timeout {tmo} ms): the inner result was there at t={}, before the deadline t={deadline}; the caller polled again at t={f1} and got the timeout error instead of it",
+                                c.at,
+                                c.at + l
+                            ));
+                        } else if rt != want {
+                            violations.push(format!(
+                                "call {i}: inner result there at t={}, caller polling again from t={f1}, resolved at t={rt}",
+                                c.at + l
+                            ));
+                        }
+                    }
+                    Some(l) if l == tmo => {}
+                    _ => {
+                        let seen_deadline = eff(deadline);
+                        let seen_result = lat.map(|l| eff(c.at + l));
+                        if rt != seen_deadline {
+                            violations.push(format!(
+                                "call {i}: deadline t={deadline} (caller busy until t={f1}): expected resolution at t={seen_deadline}, resolved at t={rt} with {out:?}"
+                            ));
+                        } else if !timed_out && seen_result != Some(seen_deadline) {
+                            violations.push(format!(
+                                "call {i}: inner call not finished by the deadline t={deadline} (caller polling again from t={f1}) but the call resolved with {out:?} at t={rt}"
+                            ));
+                        }
+                    }
+                }
+            }
+            continue;
         }
         if abandoned[i] {
             any_abandoned = true;
@@ -516,6 +586,9 @@ async fn interp(case: &TlCase) -> Verdict {
     }
     if case.listeners {
         classes.push("event_listeners_registered");
+    }
+    if any_frozen {
+        classes.push("caller_busy_elsewhere_after_first_poll");
     }
     if any_abandoned {
         classes.push("caller_gave_up_before_resolution");
